@@ -27,5 +27,6 @@ if [ ! -f "$OUT/libnsync_vrt.a" ] || [ -n "$VRT_REBUILD" ]; then
 fi
 b=$(basename "$SCEN" .c)
 clang $CF $INC $REN "$@" -c "$SCEN" -o "$OUT/$b.scen.o"
-gcc -g -pthread "$OUT/$b.scen.o" "$OUT/libnsync_vrt.a" -o "$OUT/$b" -lpthread
+gcc -g -pthread "$OUT/$b.scen.o" "$OUT/libnsync_vrt.a" -o "$OUT/$b.tmp.$$" -lpthread
+mv -f "$OUT/$b.tmp.$$" "$OUT/$b"
 echo "$OUT/$b"
